@@ -283,7 +283,8 @@ impl<T: Eq + Hash> FrequentItemsSketch<T> {
     where
         T: Clone,
     {
-        if other.is_empty() {
+        // A sketch whose purge removed every counter still carries stream weight and offset.
+        if other.stream_weight == 0 {
             return;
         }
         let merged_total = self.stream_weight + other.stream_weight;
